@@ -64,7 +64,12 @@ func execPath(name string) string {
 // StartExec launches an executor child (binary "nodeexec" or "nodeexec.race").
 func StartExec(binary string) (*Exec, error) {
 	cmd := exec.Command(execPath(binary))
-	cmd.Env = append(os.Environ(), "GORACE=halt_on_error=0 log_path=stderr")
+	// Memory regime of the child (see pbt/mem.go): every RaftNode allocates
+	// a 1.15 GB batch cache that is free while it comes untouched from the
+	// OS and costs 1.15 GB resident (page faults at ~7 µs each) once the
+	// collector recycles a freed one. A child lives for one case, so its
+	// collector is simply turned off, with a far-away memory limit as a net.
+	cmd.Env = append(os.Environ(), "GORACE=halt_on_error=0 log_path=stderr", "GOGC=off", "GOMEMLIMIT=24GiB")
 	cmd.SysProcAttr = &syscall.SysProcAttr{Pdeathsig: syscall.SIGKILL}
 	in, err := cmd.StdinPipe()
 	if err != nil {
@@ -88,10 +93,12 @@ func StartExec(binary string) (*Exec, error) {
 		sc.Buffer(make([]byte, 1<<20), 1<<20)
 		for sc.Scan() {
 			x.errMu.Lock()
-			x.errBuf = append(x.errBuf, sc.Text())
-			if len(x.errBuf) > 400 {
-				x.errBuf = x.errBuf[len(x.errBuf)-300:]
+			// keep the head (where a panic / fatal error announces itself)
+			// and a sliding tail
+			if len(x.errBuf) >= 700 {
+				x.errBuf = append(x.errBuf[:200], x.errBuf[len(x.errBuf)-400:]...)
 			}
+			x.errBuf = append(x.errBuf, sc.Text())
 			x.errMu.Unlock()
 		}
 	}()
@@ -136,7 +143,7 @@ func (x *Exec) reap(timeout bool) *Death {
 	x.errMu.Unlock()
 	var keep []string
 	for _, l := range lines {
-		if strings.Contains(l, "panic") || strings.Contains(l, "Assertion") || strings.Contains(l, "fatal error") || strings.Contains(l, "DATA RACE") || strings.HasPrefix(l, "goroutine ") && len(keep) < 3 {
+		if strings.Contains(l, "panic") || strings.Contains(l, "Assertion") || strings.Contains(l, "fatal error") || strings.Contains(l, "DATA RACE") || strings.Contains(l, "SIG") || strings.Contains(l, "runtime:") || strings.Contains(l, "nodeexec:") || strings.HasPrefix(l, "goroutine ") && len(keep) < 3 {
 			keep = append(keep, l)
 		}
 	}
